@@ -30,6 +30,8 @@ func PromOpts(lookback time.Duration) promql.EngineOpts {
 		EnableNegativeOffset: true,
 		EnableAtModifier:     true,
 		LookbackDelta:        lookback,
+		// subqueries without a step (`m[4s:]`) take the default evaluation interval: 2 s
+		NoStepSubqueryIntervalFn: func(int64) int64 { return 2000 },
 	}
 }
 
